@@ -57,7 +57,9 @@ def install():
     # belong to the simulator
     for k in [k for k in sys.modules if k == 's3transfer' or k.startswith('s3transfer.')]:
         del sys.modules[k]
-    swap = {'threading': simstd.simthreading, 'queue': simstd.simqueue,
+    from . import fs as _fs
+    swap = {'os': _fs.sim_os,
+            'threading': simstd.simthreading, 'queue': simstd.simqueue,
             'concurrent': simstd.sim_concurrent, 'concurrent.futures': simstd.sim_cf,
             'time': simstd.sim_time}
     saved = {k: sys.modules.get(k) for k in swap}
